@@ -414,7 +414,7 @@ static int parse_sequel(token_t *tok, int outer)
                         if (neg == 0 && gc.value > MAX_SSIZE_T)
                             return parse_error(tok,
                                                "integer constant too large");
-                        if (neg == 0 || gc.value == 0) {
+                        if (neg == 0 || (neg == 1 && gc.value == 0)) {
                             length = (size_t)gc.value;
                             break;
                         }
